@@ -370,6 +370,11 @@ def gen_world(src, profile):
         for i, a in enumerate(attrs):
             if i and src.chance(1, 6):
                 a["invalidated_by"] = [attrs[src.choice(i)]["name"]]
+                if profile.get("invalidation_cycles") and src.chance(1, 3):
+                    # mutual invalidation (window start / stop): writing one resets the other - and not itself in turn
+                    other = next(x for x in attrs if x["name"] == a["invalidated_by"][0])
+                    if not other.get("invalidated_by"):
+                        other["invalidated_by"] = [a["name"]]
 
     # explicit Attr flags need an Attr-style default
     for a in attrs:
